@@ -34,6 +34,9 @@ CHECKS = {
  "C08": dict(cat="exploration", technique="complete matrix enumeration through the real entrypoint: every instruction x signer identity x account state, and every instruction x account slot x substitute (incl. cooperating bank-bundle substitutions), judged by a role table and a reference consistency relation",
    text="For 55 instructions a golden call is asserted to succeed; then every cell of instruction x 12 signer identities, every cell of balance-changing instruction x {frozen, receivership, flash-loan, disabled} x signers, and every cell of instruction x account slot x substitute (foreign group's accounts, other banks' vaults/authorities/oracles, wrong-kind vaults, identical-bytes look-alikes at another address, wrong owner program, wrong discriminator, wrong program, a foreign bank together with all its vaults) is executed; cells outside the statement's role table, and substitutions that make the instruction's accounts inconsistent, must be refused (or provably ignored: bit-identical outcome).",
    ref="6 C08"),
+ "C14": dict(cat="exploration", technique="complete matrix enumeration through the real entrypoint: financial instruction x bank role x operational state, and every instruction x pause situation x timing around the exact expiry second, judged by the statement's table and an observational no-movement rule",
+   text="(A) every financial golden call (deposit, withdraw, withdraw-all, borrow, repay, repay-all, liquidation with asset/debt bank separately, bankruptcy, Token-2022 deposit) x each involved bank x {Paused, ReduceOnly, KilledByBankruptcy} is executed and compared with the statement's refuse / still-works table, plus the reduce-only valuation pair (no new borrowing, still counted against liquidation); (B) each of 55 instructions is executed 1 s and 1799 s into a propagated protocol pause (a success must not move any position or vault balance of the group) and at 1800 s / 1801 s with and without re-propagation (verdict must equal the never-paused twin).",
+   ref="6 C14"),
  "C15": dict(cat="model_checking", technique="explicit-state search to the fixpoint of the pause machine driven through the real instructions, time-abstract state key, region grid plus bounded off-grid deviations",
    text="All reachable states of the emergency-pause machine (pause / admin unpause / permissionless unpause / propagate / time ticks on the 600 s region grid plus <=1 (quick) or <=2 (thorough) one-second deviations) are explored to the fixpoint through marginfi::entry; every pause edge and every state is checked against the 30-minute push, 60-minute horizon, three-per-window and 24-hour reset bounds, and a user deposit probe shows blocking ends without anyone acting.",
    ref="6 C15"),
